@@ -260,7 +260,7 @@ def run(ctx):
                         third = r.value.elts[2]
                         exact = True
                         if fn_ is lin:
-                            exact = isinstance(third, ast.Tuple) and [A.dotted(e) for e in third.elts] == ["scan", "results"]
+                            exact = isinstance(third, ast.Tuple) and len(third.elts) == 2 and A.dotted(third.elts[0]) == "scan" and isinstance(third.elts[1], ast.Name) and _depends_on_call(fdeps, third.elts[1], "hypotest", fn_.node) and not isinstance(third.elts[1], ast.Call)
                         elif isinstance(third, ast.Tuple) and len(third.elts) == 2:
                             t0, t1 = A.unparse(third.elts[0]).replace(" ", ""), A.unparse(third.elts[1]).replace(" ", "")
                             exact = t0 in ("list(cache)", "list(cache.keys())") and t1 == "list(cache.values())"
